@@ -77,9 +77,13 @@ def run(tier, seed):
     for ports, plan in plans:
         cfg = gen.std_cfg(ns=3, usepool=True, ports=ports, port_plan=plan)
         corecheck.validate(chk, cfg, gen.STD_TREE, scheds, label="pool%d:%s" % (len(ports), sorted(plan.items())))
+    # a server listening on an IPv6 address: PASV opens its listener and then has no IPv4 address to give (503, session ended)
+    for ports, plan in (([3001, 3002], {}), ([3001], {"3001": ["inuse", "ok"]})):
+        cfg = gen.std_cfg(ns=3, usepool=True, ports=ports, port_plan=plan, v6=True)
+        corecheck.validate(chk, cfg, gen.STD_TREE, scheds[: len(scheds) // 2], label="v6:pool%d" % len(ports))
     chk.cov["rule"] = ("seeded schedules of PASV/EPSV (first, repeated), transfers, QUIT, vanish, reconnect and server.close() over 3 "
                        "sessions x pool sizes 0..3 x per-port fault plans (EADDRINUSE / other OSError at chosen attempts) x "
-                       "cancellation held at each gate of the listener start-up; pool and listeners compared with the model at every "
+                       "cancellation held at each gate of the listener start-up, on IPv4 and IPv6 servers; pool and listeners compared with the model at every "
                        "quiescent instant; distinct = schedules x plans")
     chk.cov["distinct_nontrivial"] = len({repr(s) for s in scheds}) * len(plans)
     chk.sample(scheds[1])
